@@ -408,6 +408,7 @@ B(["C02", "C06", "C18"], "escape accumulator renamed", T,
   .replace("temp += \"\\\\\" + after_char", "escaped += \"\\\\\" + after_char")
   .replace("temp += '\\\\\"'", "escaped += '\\\\\"'")
   .replace("temp += \"\\\\n\"", "escaped += \"\\\\n\"")
+  .replace("temp += \"\\\\r\"", "escaped += \"\\\\r\"")
   .replace("                temp += char\n", "                escaped += char\n")
   .replace("f'stack.append(\"{temp}\")'", "f'stack.append(\"{escaped}\")'"),
   None)
